@@ -257,6 +257,7 @@ func runC03(c *Ctx) {
 		L.ControlMustFire("tainted-alloc", fired && silent, "controls/taint.go: make([]string, n) with n from ParseInt must be flagged, the bounded variant must not")
 	}
 	c.checkNonEmptyResult()
+	c.checkAddErrorHandled("add-error-handled", scope)
 	// the error of a multi-alignment stream is published before the channel is closed
 	L.Rule("error-before-close", "ParseMultiple stores the parsing error into the channel structure before it closes the channel: a consumer that sees the channel closed reads the final error, never a stale nil")
 	if r := c.fn("io/phylip", "*Parser", "ParseMultiple"); r.ok() {
